@@ -151,8 +151,11 @@ func runC06(env *Env, tier string) {
 		}
 		if !seqDefect {
 			o.Seq = T
-			if recovering {
-				o.PossDup = true // the missing number arriving as a replay
+			if recovering || ch.Chance("possdup-in-sequence", 1, 4) {
+				// the expected number arriving as a retransmission (PossDupFlag=Y with a consistent
+				// OrigSendingTime) is not a defect by itself; every other check still applies to it
+				o.PossDup = true
+				env.Stat("probe_possdup_in_sequence")
 			}
 		}
 		var body []wire.Field
